@@ -1,5 +1,6 @@
 """Lapsp (Andromeda PSP header codec sub-check: C19, C05, C06, C07, C01) configuration for ./check"""
 CONF = {
+    'coq_sample': 10,   # cases re-evaluated inside Coq by vm_compute against the extracted runner's output
     'interesting': ['truncated-prefix-of-valid', 'registered-decoder', 'field-byte-extreme', 'length-extreme', 'empty-payload', 'field-extreme', 'roundtrip', 'dirty-buffer',
                     'no-fixlengths', 'odd-payload', 'error-residue', 'residue-after-error', 'decode-error', 'malformed', 'seed'],
     'rule': 'APSP headers built field by field (fields random, all ones, all zero); each of the 40 header octets forced to 0x00, 0x80, 0xff in turn; '
